@@ -552,8 +552,11 @@ pub(crate) async fn get_one_term(
 
     // fetch the range from blob store and deserialize the chunks
     // then put into the cache if used
+    // a download is identified by the url and the byte range requested from it: concurrent requests are merged only
+    // when both agree, otherwise a caller would be handed the data of another range of the same url
+    let flight_key = format!("{} {}", fetch_term.url, range_header(&fetch_term.url_range));
     let (mut data, chunk_byte_indices) = range_download_single_flight
-        .work_dump_caller_info(&fetch_term.url, download_range(http_client, fetch_term.clone(), term.hash))
+        .work_dump_caller_info(&flight_key, download_range(http_client, fetch_term.clone(), term.hash))
         .await?;
 
     // now write it to cache, the whole fetched term
